@@ -461,7 +461,7 @@ BOUNDED = {
             dict(family="front", args_quick=["--exclude", "3"], args_thorough=["--exclude", "1"],
                  obligation="frontend/bounded-standin/exclude.printed_type",
                  known_cases="contracts/known_exclude_cases.txt",
-                 what="`Exclude<A, B>` at SOURCE level for A, B from 171 types (literals, basic types, tuples, arrays, objects, two named recursive types and their pairwise unions; every 3rd of the 29241 pairs in the quick tier): the type handed to code generation for the result is read with an independent evaluator of Runtype on about 170 finite values and must lie between the set difference and A; when every top-level member of A is, on those values, either inside or outside B, it must be exactly the union of the members outside (programs answered with a diagnostic are skipped)"),
+                 what="`Exclude<A, B>` at SOURCE level for A, B from 171 types (literals, basic types, tuples, arrays, objects, two named recursive types and their pairwise unions; every 3rd of the 29241 pairs in the quick tier): the type handed to code generation for the result is read with an independent evaluator of Runtype on about 170 finite values and must lie between the set difference and A; when every top-level member of A is, on those values, either inside or outside B, it must be exactly the union of the members outside (programs answered with a diagnostic are skipped, except a diagnostic saying that a helper type of the result itself is not defined - `reference not found` - which is a failure)"),
             dict(family="keyof", obligation="access/bounded-standin/keyof.keyof",
                  known_cases="contracts/known_keyof_cases.txt",
                  what="keyof (not under contract): keyof A, keyof (A & B), keyof (A | B) for object atoms whose declared keys are the non-empty subsets of {a, b, c}, 182 questions (147 on object atoms, 35 on unions with a primitive member, which has no keys), against the declared keys / their union / their intersection"),
